@@ -51,6 +51,11 @@ def run(call):
             exp = [all(b for b, g, r in zip(bools, eid, inrole) if g == k and (role is None or r)) for k in range(count)]
             g = [bool(x) for x in got]
             return {"kind": "return", "value": {"ok": g == exp, "got": g, "expected": exp}}
+        elif op == "project":
+            garr = numpy.array([100.0 * (k + 1) for k in range(count)])
+            got = [float(x) for x in hh.project(garr, role=role)]
+            exp = [float(garr[g]) if (role is None or r) else 0.0 for g, r in zip(eid, inrole)]
+            return {"kind": "return", "value": {"ok": got == exp, "got": got, "expected": exp}}
         elif op == "all_numeric":
             # all() of a numeric array: true where every member (in the role) has a non-zero value
             got = hh.all(vals, role=role)
